@@ -17,7 +17,8 @@ import os
 # the model files, which are built (imported), grepped and audited through their users but not counted as obligations
 THEOREMS = ["IstioModel.C04.Theorems", "IstioModel.C04.ProtocolTheorems", "IstioModel.C04.DeltaTraceTheorems",
             "IstioModel.C04.ProcessTheorems", "IstioModel.C04.RecvTheorems", "IstioModel.C04.DeltaProtocolTheorems",
-            "IstioModel.C04.NoLoopTheorems", "IstioModel.C04.DeltaNoLoopTheorems", "IstioModel.C04.GenTie"]
+            "IstioModel.C04.NoLoopTheorems", "IstioModel.C04.DeltaNoLoopTheorems", "IstioModel.C04.StreamLoop",
+            "IstioModel.C04.GenTie"]
 GENERATED = "IstioModel/Generated/C04Types.lean"
 
 
@@ -191,6 +192,9 @@ def run(ctx):
     # both tiers, delta reduced in the quick tier and complete in the thorough tier (the harness reads VERIF_TIER)
     ctx.diff_stream("enum", 10 ** 9, oracle=oracle)
     ctx.diff_stream("denum", 10 ** 9, oracle=oracle)
+    # the REAL event loops xds.Stream / StreamDeltas on a real DiscoveryServer through fake gRPC streams: a failing request
+    # ends the stream, every push reaches the connection (pushEv.done), Context().Done(), EOF
+    ctx.diff_stream("sloop", 8, oracle=oracle)
     # the receive side: malformed first requests through the real xds.Receive / receiveDelta on a real DiscoveryServer,
     # every forwarded request then through the real processRequest / processDeltaRequest (crash freedom)
     ctx.diff_stream("recv", ctx.n(600, 6000), oracle=oracle)
@@ -202,7 +206,7 @@ def run(ctx):
         "cases_this_run": {k: ctx.streams.get(k, {}).get("cases", 0) for k in ("enum", "denum")},
     }
     # the oracle also runs on every generated case (second line, independent of the model)
-    for stream in ("sotw", "delta", "warm", "loop", "proc", "dproc", "recv", "dloop", "enum", "denum", "types", "tproc"):
+    for stream in ("sotw", "delta", "warm", "loop", "proc", "dproc", "recv", "dloop", "enum", "denum", "types", "tproc", "sloop"):
         g = os.path.join(ctx.work, "%s.gen.ops" % stream)
         if os.path.exists(g):
             out = g + ".verdict"
